@@ -17,6 +17,41 @@ CHECKS = {
   "Same workload as C01; the recording Memory/IO logs every Get/Set/In/Out of each Step and the multiset of reads, multiset of writes and ordered port log are compared with the reference model's machine-cycle log. Held on the Steps observed.",
   "Trusted: reference model's bus log (manual machine-cycle tables); order inside a Step is not compared (multisets), as the property states.",
   "DESIGN.md §3 C05"),
+ "C02": ("exploration",
+  "complete enumeration of the A x operand x F cube through CPU.Step against definitional ALU oracle functions",
+  "Thorough: the complete cube A(256) x operand(256) x F(256) is executed through the real CPU.Step for every one of the 559 encodings of the 8-bit ALU / rotate / shift / bit families (plus all 256 displacements for indexed forms) and judged by pure oracle functions (nibble sums, signed range checks, counting parity) shared with the hardware-validated reference model; the whole States value, the memory operand and the write count are compared. Quick: complete cube for one representative encoding per operation, 8 F values for the others. The space is finite and the thorough tier completes it (exhaustive: true).",
+  "Trusted: oracle functions in ref/alu.go (validated by the 134 hardware CRCs); SCF/CCF and BIT-on-memory bits 3/5 masked as the property says.",
+  "DESIGN.md §3 C02"),
+ "C03": ("exploration",
+  "enumeration of 16-bit operand pairs through CPU.Step against definitional oracle functions",
+  "All 65536 first operands x a boundary lattice of second operands x carry/flag patterns for each of the 20 ADD/ADC/SBC encodings, doubling forms and INC/DEC ss/IX/IY complete (65536 values x 256 F); thorough adds all 2^32 pairs x 4 flag patterns for one encoding of each operation. Oracle from definitions (17-bit sum, H on the low 12 bits, signed-range overflow, Z on the whole word); whole States compared.",
+  "Trusted: ref.Add16/Adc16/Sbc16 (validated by the hardware CRCs). Non-representative ss encodings are sampled on a lattice, not all 2^32 pairs.",
+  "DESIGN.md §3 C03"),
+ "C11": ("exploration",
+  "metamorphic twin monitor (DD form from S vs FD form from swap(S)), no model",
+  "For all 255 second bytes after DD/FD and all 256 fourth bytes after DDCB/FDCB, thousands of boundary-biased states: the FD form run from the IX/IY-swapped state must give the swapped post-state, the same memory/port access sequence (except the prefix byte's value) and the same written image; each form is re-run with the other index register perturbed and must neither read nor write it; invalid-code warnings must agree pairwise.",
+  "No reference model: a defect mirrored identically in both tables is C01's business. Cases where an operand aliases the prefix byte's own address are skipped (the law does not apply there).",
+  "DESIGN.md §3 C11"),
+ "C14": ("exploration",
+  "state monitor on IR around every Step; direct counting rule plus reference model",
+  "All 930 encodings x all 256 starting R x 5 I values x IFF2: the low 7 bits of R must advance by the number of opcode fetches of the decode table (2 or 3 accepted for DDCB/FDCB), bit 7 and I may change only through LD R,A / LD I,A, LD A,R / LD A,I value and flags by direct formula and by the reference model; multi-Step programs (block repeats 1..300, Steps on HALT) across the 7F->00 wrap.",
+  "R across interrupt acceptance is not compared. Other registers sampled.",
+  "DESIGN.md §3 C14"),
+ "C15": ("exploration",
+  "model-based monitor: random operation histories against a map model with full address sweeps",
+  "Random operation sequences on DumbMemory/DumbIO (all boundary lengths) and MapMemory (Set/Get/Put incl. wrap/Clone/Clear/Equal against crafted neighbours), each result compared with a trivial map model and each sequence followed by a sweep of all 65536 addresses / 256 ports; panics are violations.",
+  "Equal(nil map vs empty map) is not judged.",
+  "DESIGN.md §3 C15"),
+ "C16": ("exploration",
+  "complete enumeration through the exported accessors",
+  "All 256 masks x 256 F x 256 A for GetFlag/SetFlag/ResetFlag, the eight constants, all 65536 values for SetU16/U16/Hi/Lo: finite and enumerated completely in both tiers (exhaustive: true).",
+  "None beyond the Go toolchain.",
+  "DESIGN.md §3 C16"),
+ "C19": ("exploration",
+  "output monitor on the built cmd binaries run on generated inputs",
+  "The built cim2bin/cim2cas binaries are executed on generated images (boundary lengths incl. last byte exactly at FFFF, arbitrary contents, offsets 0..FFFF, names over all byte values incl. multi-byte UTF-8, default name) and the output file is compared byte for byte with the container layout written out from the property.",
+  "I/O error paths are outside the property.",
+  "DESIGN.md §3 C19"),
 }
 
 NOT_YET = "check not built yet in this round (work in progress; see DESIGN.md §3 for the planned monitor)"
